@@ -20,7 +20,7 @@ import pyref
 FAMILY = "freq"
 CORR = "Freq"              # Coq module DS.Corr.Freq
 FAMNUM = 4
-ORACLES = {"prop_ok": 0, "prop_roundtrip": 1, "prop_layout": 2, "no_panic": 3, "prop_foreign": 4}
+ORACLES = {"prop_ok": 0, "prop_roundtrip": 1, "prop_layout": 2, "no_panic": 3, "prop_foreign": 4, "prop_generic": 5}
 GEN_MODULES = [("GenFreq",
                 ["frequencies/sketch.rs", "frequencies/reverse_purge_item_hash_map.rs", "frequencies/serialization.rs"],
                 ["LG_MIN_MAP_SIZE", "SAMPLE_SIZE", "EPSILON_FACTOR", "LOAD_FACTOR_NUMERATOR", "LOAD_FACTOR_DENOMINATOR",
@@ -28,6 +28,9 @@ GEN_MODULES = [("GenFreq",
                  "PREAMBLE_LONGS_NONEMPTY", "EMPTY_FLAG_MASK"])]
 OPNAMES = {0: "new", 1: "update", 2: "query", 3: "stats", 4: "merge", 5: "frequent_items", 6: "serialize",
            7: "roundtrip", 8: "deserialize", 9: "reset", 10: "epsilon", 11: "parse", 12: "canon",
+           31: "serialize_str", 32: "parse_str", 33: "roundtrip_str", 34: "use_str",
+           40: "new_u64", 41: "update_u64", 42: "query_u64", 43: "stats_u64", 44: "merge_u64", 45: "frequent_items_u64", 46: "serialize_u64",
+           47: "roundtrip_u64", 48: "deserialize_u64", 49: "reset_u64", 50: "epsilon_u64", 51: "parse_u64", 52: "canon_u64",
            20: "new_str", 21: "update_str", 22: "query_str", 23: "stats_str", 24: "merge_str", 25: "frequent_items_str"}
 
 SEED = 9001
@@ -1031,13 +1034,168 @@ def gen_drift(rng, cid, image):
     return Case(cid, [], ops, tag="fi-drift-updates")
 
 
+# ---- String and u64 codecs (crate-only oracles for String: ops 31..34; u64 = the i64 model on the same bits: ops 40..52)
+GENERIC_MASK = list(range(0, 13)) + list(range(20, 26)) + list(range(40, 53))
+
+
+def str_image(lg_max, lg_cur, weight, offset, pairs, lens=None):
+    """image of a FrequentItemsSketch<String>: counts, then per item a u32 length and the UTF-8 bytes; lens overrides the
+    length fields (by position)"""
+    b = bytes([4, 1, 10, lg_max, lg_cur, 0, 0, 0]) + struct.pack("<IIQQ", len(pairs), 0, weight, offset)
+    for _, c in pairs:
+        b += struct.pack("<Q", c)
+    for i, (t, _) in enumerate(pairs):
+        ln = len(t) if not lens or lens.get(i) is None else lens[i]
+        b += struct.pack("<I", ln % 2**32) + t
+    return list(b)
+
+
+def shift_codes(ops, d):
+    return [(c + d, a) for c, a in ops]
+
+
+def gen_codec_generic(rng, cid, tier):
+    """C11: round trips of String and u64 sketches after real streams (purges included)"""
+    if cid % 2 == 0:
+        size = rng.choice([8, 8, 16, 32, 4])
+        cap = cap_of(size)
+        kind = rng.choice(["stream", "stream", "purged-empty", "fresh", "few"])
+        dom = fresh_strings(rng, {"few": 3, "fresh": 1}.get(kind, rng.choice([cap + 2, 2 * cap])))
+        ids = {b: i + 1 for i, b in enumerate(dom)}
+        ops = [(20, [0, size])]
+        if kind == "purged-empty":
+            st = [(b, 5) for b in dom[:cap + 1]]
+        elif kind == "fresh":
+            st = []
+        else:
+            st = [(rng.choice(dom), rng.choice([1, 2, 7])) for _ in range(rng.choice([len(dom), 4 * cap]) if kind == "stream" else 5)]
+        for i, (b, w) in enumerate(st):
+            ops.append((21, [0, ids[b], w, hs(b)] + list(b)))
+            if i % 11 == 10:
+                ops.append((33, [0]))
+        ops += [(23, [0]), (33, [0]), (31, [0]), (25, [0, 0, 0, 0]), (34, [0]), (33, [0])]
+        return Case(cid, [], ops, tag="fi-codec-string-%s-%d" % (kind, size))
+    size = rng.choice([8, 8, 16, 64, 2])
+    cap = cap_of(size)
+    items = fresh_items(rng, rng.choice([3, cap + 2, 2 * cap]), "mixed")          # mixed: values with the top bit set as u64
+    ops = [(0, [0, size])]
+    for _ in range(rng.choice([2, 3 * cap, 5 * cap])):
+        x = rng.choice(items)
+        ops.append((1, [0, x, rng.choice([1, 2, 2**40]), h(x)]))
+    ops += [(3, [0]), (6, [0]), (7, [0, 1])]
+    for s_ in (0, 1):
+        ops += [(3, [s_]), (12, [s_]), (5, [s_, 0, 0, 0]), (5, [s_, 1, 0, 0])]
+        for x in items[:8] + [424242]:
+            ops.append((2, [s_, x, h(x)]))
+    ops += [(4, [1, 0]), (3, [1]), (12, [1]), (7, [1, 2]), (12, [2])]
+    return Case(cid, [], shift_codes(ops, 40), tag="fi-codec-u64-%d" % size)
+
+
+def gen_malformed_generic(rng, cid, tier):
+    """C14: mutated String images (length fields at 0, 1, remaining, remaining + 1, 2^30 - 1, 2^31, 2^32 - 1; invalid UTF-8;
+    truncation; flips) and the boundary images read as u64 sketches"""
+    if cid % 3 == 2:
+        c = gen_boundaries(rng, cid, tier, rng.randrange(12), 12)
+        return Case(cid, [], shift_codes(c.ops, 40), tag="fi-malformed-u64")
+    lg_max, lg_cur = rng.choice([(3, 3), (4, 3), (5, 4)])
+    n = rng.choice([1, 2, 3, 5])
+    texts = fresh_strings(rng, n)
+    pairs = [(t, rng.choice([1, 2, 9])) for t in texts]
+    weight = sum(c for _, c in pairs) + rng.choice([0, 4])
+    img = str_image(lg_max, lg_cur, weight, rng.choice([0, 0, 3]) if weight > sum(c for _, c in pairs) + 2 else 0, pairs)
+    variants = [img]
+    pos = rng.randrange(n)
+    start = 32 + 8 * n + sum(4 + len(t) for t, _ in pairs[:pos])        # offset of the length field of item [pos]
+    remaining = len(img) - start - 4
+    for ln in (0, 1, remaining, remaining + 1, 2**30 - 1, 2**31, 2**32 - 1, len(texts[pos]) + 1, max(0, len(texts[pos]) - 1)):
+        variants.append(str_image(lg_max, lg_cur, weight, 0, pairs, lens={pos: ln}))
+    bad = list(img)                                                     # invalid UTF-8 inside an item
+    if len(texts[pos]) > 0:
+        bad[start + 4 + rng.randrange(len(texts[pos]))] = rng.choice([0xFF, 0xC0, 0x80, 0xFE])
+        variants.append(bad)
+    for c_ in sorted(set([rng.randrange(len(img) + 1) for _ in range(5)] + [start, start + 3, start + 4, len(img) - 1])):
+        variants.append(img[:c_])
+    for _ in range(4):
+        b = list(img); i = rng.randrange(len(b))
+        if i not in (3, 4):
+            b[i] ^= 1 << rng.randrange(8)
+        variants.append(b)
+    variants.append(img + [rng.randrange(256) for _ in range(7)])
+    ops = []
+    for b in variants:
+        ops += [(32, [0] + list(b)), (33, [0]), (34, [0]), (33, [0])]
+    return Case(cid, [], ops, tag="fi-malformed-string")
+
+
+def grown_partner_ops(rng, slot, big, nitems, dom):
+    """a sketch of map size [big] that has grown: [nitems] distinct items (more than a small receiver's capacity)"""
+    ops = [(0, [slot, big])]
+    for x in dom[:nitems]:
+        ops.append((1, [slot, x, rng.choice([1, 2, 5]), h(x)]))
+    return ops
+
+
+def gen_size_merge(rng, cid, tier):
+    """C18: merges between sketches of DIFFERENT configurations, the partner already grown beyond the receiver's maximum:
+    receiver map size 1..16, partner 64..1024 holding more items than the receiver's capacity, both directions; after each
+    merge the sizes are observed (stats: active <= maximum_map_capacity, lg_cur <= lg_max; image <= 32 + 16 * capacity)
+    and the result goes through serialize -> deserialize"""
+    small = rng.choice([1, 2, 4, 8, 16])
+    big = rng.choice([64, 128, 256, 1024])
+    nitems = rng.choice([20, cap_of(big) // 2, cap_of(big) - 1, cap_of(big) + 5])
+    dom = fresh_items(rng, nitems + 10, "random")
+    ops = [(0, [0, small])] + grown_partner_ops(rng, 1, big, nitems, dom)
+    for x in dom[-5:]:
+        ops.append((1, [0, x, 3, h(x)]))
+    ops += [(3, [0]), (3, [1]), (6, [1])]
+    ops += [(4, [0, 1]), (3, [0]), (6, [0]), (7, [0, 6]), (3, [6]), (6, [6])]
+    for x in dom[:6]:
+        ops.append((2, [0, x, h(x)]))
+    ops += [(4, [1, 0]), (3, [1]), (6, [1]), (7, [1, 5]), (3, [5]), (6, [5])]
+    ops += [(4, [0, 1]), (3, [0]), (6, [0]), (4, [0, 0]), (3, [0]), (6, [0])]
+    return Case(cid, [], ops, tag="fi-size-merge-%d-%d" % (small, big))
+
+
+def gen_codec_merge(rng, cid, tier):
+    """C11: a small sketch and its round-trip copy both merge a bigger, already grown partner (and are merged into copies of
+    it); every result must itself survive serialize -> deserialize.  Purges run, so a divergence after one is the known
+    finding C11-freq-layout-not-carried (tag fi-codec-p-)."""
+    small = rng.choice([1, 2, 4, 8, 16])
+    big = rng.choice([64, 128, 256])
+    nitems = rng.choice([20, cap_of(big) // 2, cap_of(big) - 1])
+    dom = fresh_items(rng, nitems + 6, "random")
+    ops = [(0, [0, small])] + grown_partner_ops(rng, 2, big, nitems, dom)
+    for x in dom[-4:]:
+        ops.append((1, [0, x, 2, h(x)]))
+    ops.append((7, [0, 1]))
+    tw = Twin(ops, 0, 1)
+    tw.both(3, []); tw.both(12, [])
+    tw.both(4, [2]); tw.both(3, []); tw.both(12, [])
+    for x in dom[:5]:
+        tw.both(2, [x, h(x)])
+    ops += [(7, [0, 5]), (3, [5]), (12, [5]), (7, [1, 6]), (3, [6])]
+    ops.append((7, [2, 3]))
+    tw2 = Twin(ops, 2, 3)
+    tw2.both(3, [])
+    ops += [(4, [2, 0]), (4, [3, 1])]
+    tw2.both(3, []); tw2.both(12, [])
+    ops += [(7, [2, 4]), (3, [4])]
+    return Case(cid, [], ops, tag="fi-codec-p-mergesizes-%d-%d" % (small, big))
+
+
 def gen(rng, tier, n=None, focus=None):
     if focus in ("drift", "drift-image"):
         # one (slow: probe runs of 1100 slots in the list-based model) case; n = 0 (the legs' quick tier) gives none
         return [] if n == 0 else [gen_drift(rng, 0, focus == "drift-image")]
+    if focus == "codec-generic":
+        n = n or (12 if tier == "quick" else 200)
+        return [gen_codec_generic(rng, i, tier) for i in range(n)]
+    if focus == "malformed-generic":
+        n = n or (12 if tier == "quick" else 200)
+        return [gen_malformed_generic(rng, i, tier) for i in range(n)]
     if focus == "codec":
         n = n or (40 if tier == "quick" else 400)
-        return [gen_codec(rng, i, tier, purge=(i % 2 == 1)) for i in range(n)]
+        return [gen_codec_merge(rng, i, tier) if i % 5 == 4 else gen_codec(rng, i, tier, purge=(i % 2 == 1)) for i in range(n)]
     if focus == "layout":
         n = n or (30 if tier == "quick" else 300)
         return [gen_layout(rng, i, tier) for i in range(n)]
@@ -1065,7 +1223,8 @@ def gen(rng, tier, n=None, focus=None):
         while len(plan) < n:
             size = rng.choice([8, 8, 16, 32, 128, 256, 512, 1, 2, 4])
             plan.append((size, rng.randint(8, top if size < 128 else min(top, 13))))
-        return [gen_size(rng, i, tier, s, l) for i, (s, l) in enumerate(plan[:n])]
+        return ([gen_size(rng, i, tier, s, l) for i, (s, l) in enumerate(plan[:n])]
+                + [gen_size_merge(rng, n + i, tier) for i in range(8 if tier == "quick" else 40)])
     n = n or (70 if tier == "quick" else 500)
     cases = []
     # fixed skeleton: every size with every stream kind appears at least once in the thorough tier;
@@ -1080,7 +1239,8 @@ def gen(rng, tier, n=None, focus=None):
     plan += [("d6", s, None) for s in (8, rng.choice([16, 32, 64]))]
     # constructor arguments below the minimal map size, then used like any other sketch
     plan += [("single", 1, rng.choice(KINDS)), ("single", 2, "distinct"), ("single", 4, rng.choice(["uniform", "zipf"])),
-             ("merge", [4, 2, 8], None), ("d6", 4, None)]
+             ("merge", [4, 2, 8], None), ("d6", 4, None),
+             ("merge", [8, 256], None), ("merge", [2, 64, 16], None)]     # small receivers, bigger (grown) partners
     plan += [("heavy", 8, None), ("heavy", rng.choice([16, 32, 64, 128]), None)]
     plan += [("images", None, None), ("badnew", None, None), ("strings", None, None), ("strings", None, None)]
     plan += [("eps2048", False, None), ("eps2048", True, None)]
@@ -1134,12 +1294,12 @@ def nontrivial(case, obs):
     """at least 2 distinct items updated with positive weight and at least one bound query; or a fork (op 7) of a
     sketch that was updated; or at least 3 images fed to parse of which one is accepted and one rejected; or a foreign
     image with at least 2 counters accepted and then queried"""
-    items = {a[1] for (c, a) in case.ops if c in (1, 21) and a[2] > 0}
-    if len(items) >= 2 and any(c in (2, 22) for (c, a) in case.ops):
+    items = {a[1] for (c, a) in case.ops if c in (1, 21, 41) and a[2] > 0}
+    if len(items) >= 2 and any(c in (2, 22, 42, 33) for (c, a) in case.ops):
         return True
     if items and any(c == 7 for (c, a) in case.ops):
         return True
-    res = [o for (c, a), o in zip(case.ops, obs or []) if c == 11]
+    res = [o for (c, a), o in zip(case.ops, obs or []) if c in (11, 32, 51)]
     if len(res) >= 3 and [1] in res and [-998] in res:
         return True
     return any(c == 11 and a[1] >= 2 and o == [1] for (c, a), o in zip(case.ops, obs or [])) and any(c == 2 for (c, a) in case.ops)
